@@ -208,7 +208,18 @@ func (g *gen) stmt(d, depth int) {
 			return
 		}
 		e := g.expr() // evaluated in the scope before the declaration takes effect
-		switch rx.Uniform(g.rt, 4, "declform") {
+		switch rx.Uniform(g.rt, 5, "declform") {
+		case 4:
+			// a constant declared in this block shadows like a variable does (and is never assigned)
+			if rapid.Bool().Draw(g.rt, "typedconst") {
+				g.line(d, "const %s int = %d", n, rx.Range(g.rt, "constval", 1, 9))
+			} else {
+				g.line(d, "const %s = %d", n, rx.Range(g.rt, "constval", 1, 9))
+			}
+			g.declare(n)
+			g.loopVars[len(g.loopVars)-1][n] = true
+			g.print(d)
+			return
 		case 0:
 			g.line(d, "%s := %s", n, e)
 		case 1:
